@@ -352,7 +352,7 @@ class C13(Check):
         # one common key, every pair of values up to 3 nodes
         vs = [v for n in (1, 2, 3) for v in pyval.vals(n)]
         pairs = [(x, y) for x in vs for y in vs]
-        pairs = rng.sample(pairs, 4500 if tier == "quick" else 60000)
+        pairs = rng.sample(pairs, 3500 if tier == "quick" else 60000)
         for x, y in pairs:
             for ml, ms in flags:
                 yield {"kind": "merge", "a": {"a": pyval.thaw(x)}, "b": {"a": pyval.thaw(y)}, "ml": ml, "ms": ms}
@@ -371,7 +371,7 @@ class C13(Check):
             for ml, ms in flags:
                 yield {"kind": "assoc", "a": a, "b": b, "c": c, "ml": ml, "ms": ms}
         mid = [pyval.thaw(t) for n in (1, 2, 3) for t in pyval.trees(n)]
-        for i in range(3000 if tier == "quick" else 150000):
+        for i in range(2200 if tier == "quick" else 150000):
             if i % 4 == 0:
                 a, b, c = (pyval.rand_tree(rng, 3, keys=("a", "b", 1)) for _ in range(3))
             else:
